@@ -60,6 +60,14 @@ CHECKS.update({
    note="mh: GFI corpus (finite dyadic models); mala/hmc: three Gaussian targets with unit scales on a rational grid (states, noises in {-1,0,1/2}, step sizes {1/2,1}, 2 leapfrog steps); the acceptance probability is pinned by two thresholds (-10% / +10%), not measured exactly; invariance of the posterior follows from detailed balance and is not sampled",
    technique="TLA+ specs checked by TLC: GFI.tla (DetailedBalance of mh as the weight identity, MHOK) and MCMC.tla (MH rule, antisymmetry, leapfrog involution, energy rule, exact rationals); behaviours replayed on the real kernels with scripted proposals, noise and thresholds; TLC counterexamples are replayed on the real code before they count",
    text="mh: TLC checks for every observed-data pattern, selection (incl. inside Vmap/Scan/Cond sub-calls), proposal outcome and accept/reject that the weight equals the change of the unselected log-probabilities - equivalent to detailed balance for the rule min(1, e^w) - also for the mixture-indicator move, that accepted moves return the proposal and rejected ones the input; behaviours replayed on the real mh. mala/hmc: TLC computes proposals and log acceptance ratios exactly in rationals, checks the Metropolis-Hastings rule, antisymmetry (detailed balance), leapfrog involution and the energy rule; each case runs on the real kernels with scripted per-coordinate noise: proposed values, accept/reject at thresholds around the exact probability, rejected => identical trace, one normal per coordinate, observed addresses untouched."),
+ "C15": dict(category="model_checking", design_ref="DESIGN.md §4 C15",
+   note="corpus of 16 deterministic programs (ADEVDet.tla) over scalar / vector(2) / matrix(2x2) / pytree arguments on a rational grid; JAX primitives outside the corpus are not covered",
+   technique="TLA+ spec (ADEVDet.tla: exact dual-number semantics in rationals) evaluated by TLC for every (program, point, tangent seed); values compared with the real jvp_estimate / grad_estimate / estimate and with jax.jvp / jax.grad",
+   text="TLC evaluates the dual-number (forward-mode) semantics of every corpus program exactly and exports primal and tangent for every argument point and tangent seed; the real expectation(f).jvp_estimate, grad_estimate and estimate (also under jit) must return those values (and agree with jax.jvp / jax.grad) for scalar, array-valued and pytree arguments, incl. transpose, slicing, dot, cond with either branch, integer intermediates; a crash is a violation."),
+ "C11": dict(category="model_checking", design_ref="DESIGN.md §4 C11",
+   note="programs of <= 2 (thorough: 3 in TLC) sites over flip_enum, flip_mvd, REINFORCE(flip), normal_reparam, REINFORCE(normal) with polynomial returns; batched (parallel-enumeration / vectorised) sites and geometric/uniform/multivariate primitives are not covered; continuous score-function unbiasedness is checked per draw only; the REINFORCE rule is exercised through the public reinforce() factory with scripted samplers, the exported flip_reinforce through seeded runs",
+   technique="TLA+ spec (ADEV.tla: CPS interpreter rules vs exact enumeration, rationals) checked by TLC (sum prob*tangent = exact derivative; enumeration exact); every outcome replayed with scripted draws on real @expectation programs; seeded runs matched against the specification's outcome sets",
+   text="TLC enumerates every outcome (draws in execution order, probability, primal, tangent) of the CPS estimator for every program and parameter value and proves that the probability-weighted tangents sum to the exact derivative (and primals to the exact value), that enumeration-only programs are exact per outcome; (A) every outcome of the scriptable programs is replayed on the real expectation programs with scripted draws (jvp_estimate and grad_estimate), (B) seeded jit/vmap runs of all discrete programs must only produce (primal, tangent) pairs of the specification's outcome set with means within 6.5 standard errors of the exact derivative, enumeration-only programs key-independent."),
 })
 
 PENDING = {}
